@@ -41,6 +41,10 @@ type probe struct {
 	Attrs  []vlib.ExpAttr
 	UTC    int  // 0 unset, 1 false, 2 true
 	ZeroPC bool // the record is handed over without a stack frame (pc 0), as a hand-built log/slog record would be
+	// Loose: the probe is an ordinary call with loose "key", value pairs (LogAttrs from one call site) instead of a record
+	// handed through with its attributes as objects; the logger's time layout is then the year alone, so that the bytes are
+	// still comparable
+	Loose bool
 }
 
 type histCall struct {
@@ -52,6 +56,7 @@ type histCall struct {
 	Panics int // 0: no; 1: one attribute value panics in its String method (the caller recovers); 2: the same inside a group
 	Flip   int // 1: the privacy-path flag is inverted while this call is made; 2: a further path mapping over the source tree is registered meanwhile; 3: the working directory is another one meanwhile (sequential histories only; both undone before the probe)
 	Reads  int // > 0: one attribute is an ObjectMarshaller that consumes this many bytes of the encoder it is handed (Next) before writing
+	Dup    bool // instead of this call: records whose loose pairs repeat a key (vlib.DisturbDupKeys) in the logger's format
 }
 
 // consumer is a user marshaller that uses the read half of the encoder's buffer interface.
@@ -142,6 +147,7 @@ func genHistory(t *rapid.T, label string, nLoggers int) []histCall {
 		if rapid.IntRange(0, 9).Draw(t, "hreads") == 0 {
 			h[i].Reads = rapid.SampledFrom([]int{1, 5, 40, 400, 5000}).Draw(t, "hreadsN")
 		}
+		h[i].Dup = rapid.IntRange(0, 9).Draw(t, "hdupkeys") == 0
 		if rapid.IntRange(0, 11).Draw(t, "hpanics") == 0 {
 			h[i].Panics = rapid.IntRange(1, 2).Draw(t, "hpanicsWhere")
 		}
@@ -174,6 +180,7 @@ func property(t *rapid.T, mode string, sink func([]byte)) {
 		p.UTC = rapid.IntRange(0, 2).Draw(t, "utc")
 		p.Attrs = genAttrs(t)
 		p.ZeroPC = rapid.IntRange(0, 4).Draw(t, "zeroPC") == 0
+		p.Loose = rapid.IntRange(0, 3).Draw(t, "probeIsAnOrdinaryCallWithLoosePairs") == 0
 		if p.Sev == slog.AlwaysLevel && strings.Trim(p.Msg, " \t\r\n") == "" {
 			p.Msg += "x"
 		}
@@ -224,6 +231,17 @@ func property(t *rapid.T, mode string, sink func([]byte)) {
 		case 2:
 			plg.SetUTCMode(true)
 		}
+		var looseArgs []any
+		if p.Loose {
+			plg.SetTimeFormat("2006")
+			for _, a := range vlib.AttrsOf(p.Attrs) {
+				if _, isGroup := a.Value().(slog.Attrs); isGroup || a.Key() == "" {
+					looseArgs = append(looseArgs, a)
+				} else {
+					looseArgs = append(looseArgs, a.Key(), a.Value())
+				}
+			}
+		}
 
 		// history loggers: one per format plus a child of the probe logger
 		hlog := vlib.NewEventLog()
@@ -247,7 +265,11 @@ func property(t *rapid.T, mode string, sink func([]byte)) {
 			if p.ZeroPC {
 				pc = 0
 			}
-			plg.(slog.LogSlogAware).WriteThru(context.Background(), p.Sev, p.TS, pc, p.Msg, vlib.AttrsOf(p.Attrs))
+			if p.Loose {
+				plg.LogAttrs(context.Background(), p.Sev, p.Msg, append([]any(nil), looseArgs...)...)
+			} else {
+				plg.(slog.LogSlogAware).WriteThru(context.Background(), p.Sev, p.TS, pc, p.Msg, vlib.AttrsOf(p.Attrs))
+			}
 			evs := log.Snapshot()[before:]
 			if len(evs) != 1 {
 				t.Fatalf("C09 harness expectation: one probe record, got %d", len(evs))
@@ -257,6 +279,10 @@ func property(t *rapid.T, mode string, sink func([]byte)) {
 		runHist := func(h []histCall, goroutines int) {
 			do := func(c histCall) {
 				l := hl[c.Logger]
+				if c.Dup {
+					vlib.DisturbDupKeys([]string{"color", "logfmt", "json", p.Format}[c.Logger%4])
+					return
+				}
 				attrs := vlib.AttrsOf(c.Attrs)
 				if c.Flip > 0 && goroutines <= 1 {
 					// the same call site as the probe's, resolved under other global settings
